@@ -607,3 +607,96 @@ def urlpattern_vectors(eng):
         res[pid] = {"parsed": int(m.group(1)), "bad": int(m.group(2)), "vectors": n,
                     "fails": [x[:400] for x in r.stdout.splitlines() if x.startswith(f"UPVEC-FAIL {pid}")][:6]}
     return res
+
+
+def idna_corpus(eng):
+    """native base cases for C06/C16: NFC against Python's unicodedata (stability policy) and the WPT to_ascii vectors"""
+    import unicodedata
+    from engine import Unit
+    recs = []
+
+    stable = {}
+
+    def nfc_rec(cps):
+        # only strings the IDNA mapping step can hand to the normaliser: every code point is unchanged by NFKC (the
+        # UTS #46 table maps every other one away first, e.g. the composition-excluded U+0958, which
+        # ada::idna::normalize alone leaves as it is - not reachable through to_ascii, so not demanded here)
+        for c in cps:
+            if c not in stable:
+                stable[c] = unicodedata.normalize("NFKC", chr(c)) == chr(c)
+            if not stable[c]:
+                return
+        st = "".join(chr(c) for c in cps)
+        w = unicodedata.normalize("NFC", st)
+        a = b"".join(struct.pack("<I", c) for c in cps)
+        b = b"".join(struct.pack("<I", ord(c)) for c in w)
+        recs.append(struct.pack("<II", 0, len(a)) + a + struct.pack("<I", len(b)) + b)
+    assigned = [c for c in range(0x110000) if not (0xD800 <= c < 0xE000) and unicodedata.category(chr(c)) != "Cn"]
+    marks = {}
+    for c in assigned:
+        nfc_rec([c])
+        cc = unicodedata.combining(chr(c))
+        if cc:
+            marks.setdefault(cc, [])
+            if len(marks[cc]) < 2:
+                marks[cc].append(c)
+        d = unicodedata.normalize("NFD", chr(c))
+        if d != chr(c):
+            dl = [ord(x) for x in d]
+            nfc_rec(dl)
+            if len(dl) >= 2:
+                nfc_rec(dl + [0x0301])
+                nfc_rec(dl[:1] + [0x0316] + dl[1:])          # a lower-class mark in between does not block
+                nfc_rec(dl[:1] + [dl[1], dl[1]] + dl[2:])     # the same mark twice: the second is blocked
+                nfc_rec(dl[:1] + [0x0041] + dl[1:])           # a starter in between blocks
+    ml = [m for cc in sorted(marks) for m in marks[cc]]
+    for a in ml:
+        for b in ml:
+            nfc_rec([0x61, a, b])
+    for a in ml[::3]:
+        for b in ml[::5]:
+            for c in ml[::7]:
+                nfc_rec([0x61, a, b, c])
+    for l in (0x1100, 0x1105, 0x1112):
+        for v in (0x1161, 0x116A, 0x1175):
+            nfc_rec([l, v])
+            for t in (0x11A7, 0x11A8, 0x11C2, 0x11C3):
+                nfc_rec([l, v, t])
+                nfc_rec([0xAC00 + ((l - 0x1100) * 21 + (v - 0x1161)) * 28, t])
+    n_nfc = len(recs)
+    for fn in ("toascii.json", "IdnaTestV2.json"):
+        try:
+            d = json.load(open(os.path.join(REPO, "tests/wpt", fn), encoding="utf-8"))
+        except Exception:  # noqa
+            continue
+        for t in d:
+            if not isinstance(t, dict) or "input" not in t:
+                continue
+            try:
+                a = t["input"].encode("utf-8")
+                o = t.get("output")
+                b = o.encode("utf-8") if isinstance(o, str) else b""
+            except UnicodeEncodeError:
+                continue
+            if not a:
+                continue
+            recs.append(struct.pack("<II", 1 if isinstance(o, str) and o else 2, len(a)) + a + struct.pack("<I", len(b)) + b)
+    vpath = os.path.join(eng.work, "idna_vectors.bin")
+    open(vpath, "wb").write(b"".join(recs))
+    u = Unit("default", ["vk_nfc_real", "vk_to_ascii_vec"])
+    obj = eng.native_obj(u)
+    exe = os.path.join(eng.work, "idna_corpus.exe")
+    o = os.path.join(eng.work, "idna_corpus.o")
+    r = subprocess.run([GCC, "-O1", "-w", "-c", os.path.join(VERIF, "harness", "idna_corpus.c"), "-o", o], capture_output=True, text=True)
+    if r.returncode != 0:
+        return {"error": "gcc: " + r.stderr[-400:]}
+    r = subprocess.run([CLANGXX, "-no-pie", o, obj, "-o", exe, "-lpthread"], capture_output=True, text=True)
+    if r.returncode != 0:
+        return {"error": "link: " + r.stderr[-400:]}
+    r = subprocess.run([exe, vpath], capture_output=True, text=True, errors="replace", timeout=1200)
+    m = re.search(r"IDNACORPUS nfc runs=(\d+) bad=(\d+) toascii runs=(\d+) bad=(\d+)", r.stdout)
+    if not m:
+        return {"error": f"rc={r.returncode} " + (r.stdout + r.stderr)[-300:]}
+    return {"parsed": int(m.group(1)) + int(m.group(3)), "bad": int(m.group(2)) + int(m.group(4)), "nfc_vectors": int(m.group(1)), "nfc_bad": int(m.group(2)),
+            "toascii_vectors": int(m.group(3)), "toascii_bad": int(m.group(4)), "unicodedata": unicodedata.unidata_version,
+            "fails": [x[:400] for x in re.findall(r"IDNA-FAIL.*", r.stdout)[:10]]}
